@@ -22,6 +22,12 @@ def bin_inputs(rng, n_rand, docs):
                 if rng.random() < 0.1:
                     b += struct.pack("<H", rng.choice([0, 1, 5, 0xffff, 0x8000])) + b"ab"
             out.append(bytes(b))
+    # containers with every payload kind, truncated at every length (a cut inside the last bytes of a payload)
+    body = (struct.pack("<H", 3) + struct.pack("<HB", 0x0e, 1) + struct.pack("<Hi", 0x0c, 7) + struct.pack("<HI", 0x14, 9) +
+            struct.pack("<Hq", 0x317, -2) + struct.pack("<HQ", 0x29c, 5) + struct.pack("<Hf", 0x0d, 1.5) + struct.pack("<Hd", 0x167, 2.5) +
+            struct.pack("<HH", 0x0f, 3) + b"abc" + struct.pack("<H", 4))
+    for k in range(len(body) + 1):
+        out.append(struct.pack("<HH", 0x2d84, 1) + body[:k])
     # adversarial: huge length prefixes, deep nesting, lone ids
     out += [struct.pack("<HH", 0x0f, 0xffff), struct.pack("<HH", 0x17, 0xffff) + b"x" * 10, struct.pack("<H", 3) * 400, struct.pack("<H", 4) * 400,
             (struct.pack("<H", 0x2d84) + struct.pack("<H", 1) + struct.pack("<H", 3)) * 200, struct.pack("<H", 0x243) + struct.pack("<H", 3) * 3,
@@ -41,6 +47,9 @@ def run_extra(ctx):
         cases.append("bl.rslice\t%s" % h)
         cases.append("bl.stream\t%s\t%d\t%s" % (h, rng.choice([1, 2, 5, 8, 16, 64, len(d) + 1]), rng.choice(["-", ",".join(["1"] * min(len(d), 300)) or "-", "3,1,7,2"])))
         cases.append("bt.all\t%s" % h)
+        # reader operations incl. skip_container on whatever follows, small buffers (a payload may straddle the window)
+        cases.append("bl.rops\t%s\t%d\t%s\t%s" % (h, rng.choice([3, 4, 5, 6, 8, 9, 16]), rng.choice(["-", "1,1,1,1,1,1,1,1,1,1,1,1", "2,3,1,4"]),
+                                                  ",".join(rng.choice(["n", "n", "k", "n"]) for _ in range(rng.randrange(1, 7)))))
         for path in ("tape", "slice", "reader:%d:-" % rng.choice([8, 64])):
             cases.append("\t".join(["de.bin", path, rng.choice(["error", "stringify", "ignore"]), "map:", rng.choice(["eu4", "raw"]), rng.choice(["any", "ign", "map(any)", "seq(any)"]), h]))
     # ---- text byte strings through the decoders, f64 and the text deserializers with an `any` target
